@@ -35,6 +35,13 @@ DEFECTS = [
     ('undefined-symbol', ['run % mark @[UNDEFINED]@'], ('VALIDATION_ERROR',)),
     ('undefined-symbol-in-string', ['def string U = "a@[UNDEFINED]@b"'], ('VALIDATION_ERROR',)),
     ('defined-later', ['run % mark @[LATER]@'], ('VALIDATION_ERROR',)),
+    # references in the SUFFIX of a path whose first part is a path symbol (both ways of writing it), in a definition that is never used
+    ('undefined-symbol-in-suffix-after-path-symbol', ['def path PB1 = -rel-act b', 'def path PU1 = @[PB1]@/@[UNDEFINED]@.txt'], ('VALIDATION_ERROR',)),
+    ('undefined-symbol-in-suffix-of-rel-symbol', ['def path PB2 = -rel-act b', 'def path PU2 = -rel PB2 x-@[UNDEFINED]@'], ('VALIDATION_ERROR',)),
+    ('defined-later-in-suffix-after-path-symbol', ['def path PB3 = -rel-tmp b', "file @[PB3]@/@[LATER]@.txt = 'x'"], ('VALIDATION_ERROR',)),
+    ('defined-later-in-suffix-of-rel-symbol', ['def path PB4 = -rel-tmp b', "file -rel PB4 @[LATER]@.txt = 'x'"], ('VALIDATION_ERROR',)),
+    ('list-in-suffix-after-path-symbol', ['def path PB5 = -rel-tmp b', 'def list LS5 = a b', "file @[PB5]@/@[LS5]@ = 'x'"], ('VALIDATION_ERROR',)),
+    ('list-in-suffix-of-rel-symbol', ['def path PB6 = -rel-tmp b', 'def list LS6 = a b', 'dir -rel PB6 @[LS6]@'], ('VALIDATION_ERROR',)),
     ('duplicate-definition', ["def string LATER = 'again'"], ('VALIDATION_ERROR',)),
     ('duplicate-builtin', ["def string EXACTLY_ACT = 'x'"], ('VALIDATION_ERROR',)),
     # a definition that refers to the symbol it defines (the symbol is not defined "before" its own value)
@@ -53,6 +60,10 @@ DEFECTS = [
     ('missing-home-file-contents', ['file g.txt = -contents-of -rel-home no-such-file'], ('VALIDATION_ERROR',)),
     ('missing-home-file-arg', ['run % mark -existing-file -rel-home no-such-file'], ('VALIDATION_ERROR',)),
     ('missing-home-program', ['run -rel-home no-such-program'], ('VALIDATION_ERROR',)),
+    # arguments APPENDED to a program symbol are validated like arguments written in its definition
+    ('missing-home-file-arg-appended-to-program-symbol', ['def program PSY1 = % mark p', 'run @ PSY1 -existing-file -rel-home no-such-file'], ('VALIDATION_ERROR',)),
+    ('missing-home-file-arg-appended-twice-removed', ['def program PSY2 = % mark p', 'def program PSY3 = @ PSY2 a', 'run @ PSY3 -existing-path -rel-home no-such-file'], ('VALIDATION_ERROR',)),
+    ('missing-home-file-arg-in-program-symbol', ['def program PSY4 = % mark p -existing-dir -rel-home no-such-dir', 'run @ PSY4'], ('VALIDATION_ERROR',)),
     ('missing-file-rel-here-symbol', ['def path HERE = -rel-here .', 'file g.txt = -contents-of -rel HERE no-such-file'], ('VALIDATION_ERROR',)),
     ('missing-file-rel-here-symbol-2', ['def path HERE1 = -rel-here hd', 'def path HERE2 = @[HERE1]@/no-such-file',
                                         'run % mark -existing-file @[HERE2]@'], ('VALIDATION_ERROR',)),
@@ -172,12 +183,12 @@ def cases(tier):
             positions = [0] if phase == 'act' else range(len(base[phase]) + 1)
             for idx in positions:
                 for d in defects_for(phase):
-                    if d[0] in ('defined-later', 'duplicate-definition', 'act-defined-later'):
+                    if d[0] in ('duplicate-definition', 'act-defined-later') or d[0].startswith('defined-later'):
                         if not any('def string LATER' in l for l in base['cleanup']):
                             continue
                         if phase == 'cleanup':
                             defpos = [i for i, l in enumerate(base['cleanup']) if 'def string LATER' in l][0]
-                            if d[0] == 'defined-later' and idx > defpos:
+                            if d[0].startswith('defined-later') and idx > defpos:
                                 continue  # reference after the definition: valid
                     cmds = COMMANDS if (tier == 'thorough' or name == 'full') else ('run', 'symbol')
                     for cmd in cmds:
